@@ -2,6 +2,7 @@
 mod big;
 mod engine;
 mod exact;
+mod explore;
 mod gen;
 mod matrices;
 mod migrate;
@@ -28,6 +29,7 @@ enum Task {
     Random(Regime, u64),
     Migration(u64),
     RandomLogs(u64),
+    Explore(usize, u32, u64),
 }
 
 struct Plan {
@@ -69,6 +71,16 @@ fn plan(prop: &str, thorough: bool, seed: u64) -> Plan {
         "C16" => { add(&TRADE, 300, &mut tasks); add(&LEGACY, 100, &mut tasks); add(&HOSTILE, 100, &mut tasks); }
         "C17" => { add(&TRADE, 500, &mut tasks); add(&GRIND, 200, &mut tasks); add(&ROLES, 150, &mut tasks); add(&HOSTILE, 100, &mut tasks); let n = if thorough { 8000 } else { 800 }; for i in 0..n { tasks.push(Task::Migration(seed * 77 + i)); } p.marker_matrix = true; }
         _ => { add(&TRADE, 200, &mut tasks); add(&HOSTILE, 100, &mut tasks); add(&GRIND, 60, &mut tasks); add(&BIG, 40, &mut tasks); add(&LEGACY, 40, &mut tasks); add(&DEEP, 10, &mut tasks); for i in 0..100 { tasks.push(Task::Migration(seed * 77 + i)); } p.marker_matrix = true; p.inst_matrix = true; p.modify_matrix = true; p.version_matrix = true; p.integrality = true; }
+    }
+    if matches!(prop, "C01" | "C02" | "C03" | "C04" | "C05" | "C06" | "C07" | "C08" | "C09" | "C10" | "C11" | "C16" | "C17") {
+        // W6: bounded exhaustive exploration of short histories on four tiny markets (first in the
+        // queue: they are the longest single tasks)
+        // probe-heavy properties get a smaller node budget (each node also runs their probes)
+        let scale: u64 = match prop { "C05" => 10, "C03" | "C04" | "C06" | "C08" | "C16" => 40, _ => 100 };
+        let (depth, budget) = if thorough { (40, 20_000 * scale) } else { (12, 600 * scale) };
+        let mut ex: Vec<Task> = (0..explore::tiny_markets().len()).map(|i| Task::Explore(i, depth, budget)).collect();
+        ex.extend(tasks.drain(..));
+        tasks = ex;
     }
     if let Some(lim) = std::env::var("VERIF_TASK_LIMIT").ok().and_then(|s| s.parse::<usize>().ok()) {
         // reduced workload for the sanitizer runs (valgrind / Miri): an even sample of the task list
@@ -271,6 +283,12 @@ fn main() {
                         let o = Opts { drain: false, ..opts.clone() };
                         migrate::run_random_logs(*s, &o, &mut st)
                     }
+                    Task::Explore(mi, depth, budget) => {
+                        let markets = explore::tiny_markets();
+                        let mut found = explore::explore(&markets[*mi], *depth, *budget, &opts, &mut st);
+                        bad.extend(found.drain(..).take(20));
+                        continue;
+                    }
                 };
                 if sample.is_none() && h.ops.len() > 8 {
                     sample = Some(excerpt(&h));
@@ -423,6 +441,14 @@ fn main() {
 }
 
 fn exhaustive_list(p: &str) -> Vec<&'static str> {
+    let mut v = exhaustive_list0(p);
+    if matches!(p, "C01" | "C02" | "C03" | "C04" | "C05" | "C06" | "C07" | "C08" | "C09" | "C10" | "C11" | "C16" | "C17") {
+        v.push("W6: iterative-deepening enumeration of all request sequences over a small alphabet on four tiny markets (depth and node budget in requests_by_kind_and_outcome: w6_*)");
+    }
+    v
+}
+
+fn exhaustive_list0(p: &str) -> Vec<&'static str> {
     match p {
         "C10" | "C01" | "C02" | "C04" | "C06" | "C08" | "C17" => vec!["marker assignment {none, coin, restricted}^3 x fund-moving scenario (27 runs)"],
         "C12" => vec!["presence mask 2^8 x 4 book states x 2 fee starts x value forms"],
